@@ -54,7 +54,13 @@ namespace vh
             typename G::nodes_status_map_type ov;
             if (d.has("ov"))
                 for (auto& e : d["ov"].a)
-                    ov[static_cast<size_t>((*e)[0].as_int())] = to_status((*e)[1].as_int());
+                {
+                    // (an optional third component 1: the key is 2^63 + the first one)
+                    size_t key = static_cast<size_t>((*e)[0].as_int());
+                    if (e->size() > 2 && (*e)[2].as_int() == 1)
+                        key += static_cast<size_t>(1) << 63;
+                    ov[key] = to_status((*e)[1].as_int());
+                }
             size_t n = static_cast<size_t>(d["n"].as_int());
             // "via": "from_length": the factory that takes the total length (exact here: small
             // integer spacings times a power of two)
@@ -79,9 +85,13 @@ namespace vh
             typename G::nodes_status_map_type ov;
             if (d.has("ov"))
                 for (auto& e : d["ov"].a)
-                    ov[{ static_cast<size_t>((*e)[0].as_int()),
-                         static_cast<size_t>((*e)[1].as_int()) }]
-                        = to_status((*e)[2].as_int());
+                {
+                    // (an optional fourth component 1: the row is 2^63 + the first one)
+                    size_t row = static_cast<size_t>((*e)[0].as_int());
+                    if (e->size() > 3 && (*e)[3].as_int() == 1)
+                        row += static_cast<size_t>(1) << 63;
+                    ov[{ row, static_cast<size_t>((*e)[1].as_int()) }] = to_status((*e)[2].as_int());
+                }
             typename G::shape_type shape{ static_cast<size_t>(d["nr"].as_int()),
                                           static_cast<size_t>(d["nc"].as_int()) };
             if (d.get_str("via", "") == "from_length" && shape[0] >= 2 && shape[1] >= 2)
